@@ -119,7 +119,7 @@ func c14Sig(w *c14worker, infix bool, src string) string {
 
 func c14(r *rep.Run) {
 	maxNodes, allGaps, devs, fmtLen := 4, 4, 2, 5
-	r.SetBudget(150e9)
+	r.SetBudget(300e9)
 	if r.Thorough() {
 		maxNodes, allGaps, devs, fmtLen = 5, 5, 3, 6
 		r.SetBudget(1800e9)
